@@ -179,6 +179,12 @@ class Ctx:
         if missing or not required:
             raise Fail("theorems no longer stated/checked in GenLink/%s.v: %s" % (link_name, ", ".join(missing) or "(none registered)"))
         self.theorems = list(self.theorems) + recs
+        if self.tier == "thorough" and not self.replay and os.environ.get("VERIF_SKIP_COQCHK") != "1":
+            q = sh(["coqchk", "-silent", "-o", "-Q", COQ, "Gopar", "-Q", gdir, "GoparGen", "GoparGen." + link_name], cwd=gdir, timeout=6000, check=False)
+            tail = q.stdout[-1500:]
+            self.coverage["coqchk_" + link_name] = {"exit": q.returncode, "summary": tail[tail.find("CONTEXT SUMMARY"):] if "CONTEXT SUMMARY" in tail else tail}
+            if q.returncode != 0:
+                raise Fail("coqchk rejected GoparGen.%s: %s" % (link_name, tail))
         self.coverage.setdefault("regenerated_from_source", []).append(
             {"translator": display or " ".join(os.path.relpath(x, VERIF) if x.startswith(VERIF) else x for x in gen_cmd("<out>")),
              "generated_sha256": sha(open(gen, "rb").read()), "link": "coq/GenLink/%s.v" % link_name, "theorems": thms})
